@@ -859,7 +859,7 @@ def D2w(vc):
 
 
 # =============================================================================================== H8c
-@harness('H8c', targets='kopf._core.reactor.subhandling.subhandling_context', props=['C02'],
+@harness('H8c', targets='kopf._core.reactor.subhandling.subhandling_context', props=['C02', 'C11'],
          clauses=['fresh_registry_and_flag_for_the_body', 'implicit_execute_unless_explicit', 'implicit_execute_in_context',
                   'not_after_a_failed_body', 'errors_propagate', 'context_restored'],
          canaries=['canary.always_implicit', 'canary.never_raises'],
